@@ -8,7 +8,8 @@ import itertools, random
 from packaging.specifiers import Specifier, SpecifierSet, InvalidSpecifier
 from packaging.version import Version, InvalidVersion
 
-TRI = {"T": True, "F": False, "N": None}
+# T F N, and non-bool values read by truthiness: ints 1 / 0, a non-empty / the empty str
+TRI = {"T": True, "F": False, "N": None, "1": 1, "0": 0, "S": "x", "E": ""}
 def b(x): return "T" if x else "F"
 def tri(x): return "N" if x is None else b(x)
 
@@ -33,6 +34,43 @@ def positions(inp, res):
         if j == len(inp): return None
         out.append(j); j += 1
     return out
+
+
+def do_contains(top, a, inst, k, t):
+    it = mk_item(k, t)
+    try:
+        if isinstance(top, SpecifierSet):
+            if inst == "N" and a == "N" and len(t) % 2: r = top.contains(it)
+            elif inst == "N": r = top.contains(it, prereleases=TRI[a])
+            else: r = top.contains(it, prereleases=TRI[a], installed=TRI[inst])
+        else:
+            r = top.contains(it, prereleases=TRI[a]) if not (a == "N" and len(t) % 2) else top.contains(it)
+        return b(r) if r is True or r is False else "!nonbool"
+    except InvalidVersion: return "E"
+
+
+def do_in(top, k, t):
+    try:
+        r = mk_item(k, t) in top
+        return b(r) if r is True or r is False else "!nonbool"
+    except InvalidVersion: return "E"
+
+
+def do_filter(top, a, n, prs):
+    items = []
+    for k in range(int(n)):
+        # kind 'd': the SAME object as the previous item (an input list may hold one object twice; both occurrences are positions of their own)
+        if prs[2 * k] == "d" and items and prs[2 * k + 1] == prs[2 * k - 1]: items.append(items[-1])
+        else: items.append(mk_item(prs[2 * k], prs[2 * k + 1]))
+    # the iterable kind is a function of the case text: a list, a one-shot iterator, a generator or a tuple must all do
+    sel = (sum(len(x) for x in prs) + int(n)) % 4
+    feed = [items, iter(items), (x for x in items), tuple(items)][sel]
+    try:
+        res = list(top.filter(feed, prereleases=TRI[a])) if not (a == "N" and int(n) % 2) else list(top.filter(feed))
+        pos = positions(items, res)
+        if pos is None: return "[!not-the-input-objects-in-input-order]"
+        return "[" + ".".join("%d%s" % (p, prs[2 * p]) for p in pos) + "]"
+    except InvalidVersion: return "[E]"
 
 
 def run_prog(args, hook=None):
@@ -70,35 +108,20 @@ def run_prog(args, hook=None):
             elif op == "P":
                 o, = take(1); stack[-1].prereleases = TRI[o]
             elif op == "c":
-                a, inst, k, t = take(4); top = stack[-1]; it = mk_item(k, t)
-                try:
-                    if isinstance(top, SpecifierSet):
-                        if inst == "N" and a == "N" and len(t) % 2: r = top.contains(it)
-                        elif inst == "N": r = top.contains(it, prereleases=TRI[a])
-                        else: r = top.contains(it, prereleases=TRI[a], installed=TRI[inst])
-                    else:
-                        r = top.contains(it, prereleases=TRI[a]) if not (a == "N" and len(t) % 2) else top.contains(it)
-                    out.append(b(r) if r is True or r is False else "!nonbool")
-                except InvalidVersion: out.append("E")
+                a, inst, k, t = take(4); out.append(do_contains(stack[-1], a, inst, k, t))
             elif op == "in":
-                k, t = take(2)
-                try:
-                    r = mk_item(k, t) in stack[-1]
-                    out.append(b(r) if r is True or r is False else "!nonbool")
-                except InvalidVersion: out.append("E")
+                k, t = take(2); out.append(do_in(stack[-1], k, t))
             elif op == "f":
-                a, n = take(2); prs = take(2 * int(n))
-                items = [mk_item(prs[2 * k], prs[2 * k + 1]) for k in range(int(n))]
-                top = stack[-1]
-                # the iterable kind is a function of the case text: a list, a one-shot iterator, a generator or a tuple must all do
-                sel = (sum(len(x) for x in prs) + int(n)) % 4
-                feed = [items, iter(items), (x for x in items), tuple(items)][sel]
+                a, n = take(2); prs = take(2 * int(n)); out.append(do_filter(stack[-1], a, n, prs))
+            elif op == "eqs":
+                k, t = take(2); top = stack[-1]
                 try:
-                    res = list(top.filter(feed, prereleases=TRI[a])) if not (a == "N" and int(n) % 2) else list(top.filter(feed))
-                    pos = positions(items, res)
-                    if pos is None: out.append("[!not-the-input-objects-in-input-order]")
-                    else: out.append("[" + ".".join("%d%s" % (p, prs[2 * p]) for p in pos) + "]")
-                except InvalidVersion: out.append("[E]")
+                    other = Specifier(t) if k == "X" else len(t) if k == "n" else t
+                    r = top == other
+                    if r is not True and r is not False: out.append("!nonbool")
+                    elif r != (not top != other): out.append("!eq-ne-disagree")
+                    else: out.append(b(r))
+                except InvalidSpecifier: out.append("!E"); raise Stop
             elif op == "str": out.append(str(stack[-1]))
             elif op == "len": out.append(str(len(stack[-1])))
             elif op == "pre": out.append(tri(stack[-1].prereleases))
@@ -112,6 +135,56 @@ def run_prog(args, hook=None):
     except Stop:
         pass
     if hook is not None: hook(stack)
+    return ";".join(out)
+
+
+def run_world(args):
+    """s.world: Specifier objects (cells) and sets numbered in order of creation; a set built with L holds the very cell objects, so an
+    assignment through the harness's own reference to a cell (M) must be seen through every set holding it, also through a & b."""
+    cells, sets, out, i = [], [], [], 0
+    def take(n):
+        nonlocal i
+        r = args[i:i + n]; i += n
+        if len(r) != n: raise KeyError("bad program")
+        return r
+    try:
+        while i < len(args):
+            op, = take(1)
+            if op == "X":
+                o, t = take(2)
+                try: cells.append(Specifier(t, prereleases=TRI[o]))
+                except InvalidSpecifier: out.append("!E"); raise Stop
+            elif op == "L":
+                o, n = take(2); addrs = [int(x) for x in take(int(n))]
+                sets.append(SpecifierSet([cells[a] for a in addrs], prereleases=TRI[o]))
+            elif op == "&":
+                x, y = take(2)
+                try: sets.append(sets[int(x)] & sets[int(y)])
+                except ValueError: out.append("!V"); raise Stop
+            elif op == "P":
+                x, o = take(2); sets[int(x)].prereleases = TRI[o]
+            elif op == "M":
+                a, o = take(2); cells[int(a)].prereleases = TRI[o]
+            elif op == "c":
+                x, a, inst, k, t = take(5); out.append(do_contains(sets[int(x)], a, inst, k, t))
+            elif op == "in":
+                x, k, t = take(3); out.append(do_in(sets[int(x)], k, t))
+            elif op == "f":
+                x, a, n = take(3); prs = take(2 * int(n)); out.append(do_filter(sets[int(x)], a, n, prs))
+            elif op == "pre":
+                x, = take(1); out.append(tri(sets[int(x)].prereleases))
+            elif op == "str":
+                x, = take(1); out.append(str(sets[int(x)]))
+            elif op == "xc":
+                a, arg, k, t = take(4); out.append(do_contains(cells[int(a)], arg, "N", k, t))
+            elif op == "xf":
+                a, arg, n = take(3); prs = take(2 * int(n)); out.append(do_filter(cells[int(a)], arg, n, prs))
+            elif op == "xpre":
+                a, = take(1); out.append(tri(cells[int(a)].prereleases))
+            else:
+                raise KeyError(op)
+    except Stop:
+        pass
     return ";".join(out)
 
 
@@ -198,33 +271,49 @@ def law_c05(args):
 
 
 def law_c06(args):
-    """args: kind (X|S), ctor override, later override (T|F|N|keep), text, then items as (k, text) pairs.
-    Checks gate / final-unaffected / monotone / filter-exact / fall-back / installed / history independence on the implementation."""
+    """args: kind (X|S|L), ctor override, later override (T|F|N|1|0|keep), text, then items as (k, text) pairs.
+    kind L: the text is a JSON list of [member override, clause]; the set is built from Specifier objects carrying their own overrides.
+    Checks gate / final-unaffected / monotone (over every way of enabling) / filter-exact / fall-back / filter idempotent / installed /
+    history independence on the implementation."""
+    import json
     kind, ctor, later, text = args[:4]
     prs = args[4:]
+    nb = lambda x: None if x is None else bool(x)
     try:
-        mkobj = (lambda o: Specifier(text, prereleases=TRI[o])) if kind == "X" else (lambda o: SpecifierSet(text, prereleases=TRI[o]))
+        if kind == "X": mkobj = lambda o: Specifier(text, prereleases=TRI[o])
+        elif kind == "S": mkobj = lambda o: SpecifierSet(text, prereleases=TRI[o])
+        else:
+            spec = json.loads(text)
+            mkobj = lambda o: SpecifierSet([Specifier(t, prereleases=TRI[mo]) for mo, t in spec], prereleases=TRI[o])
         obj = mkobj(ctor)
     except InvalidSpecifier:
         return "ok"
-    override = TRI[ctor]
+    override = nb(TRI[ctor])
     if later != "keep":
-        obj.prereleases = TRI[later]; override = TRI[later]
+        obj.prereleases = TRI[later]; override = nb(TRI[later])
     fresh = mkobj(tri(override))         # same latest override, no history
     items = [mk_item(prs[2 * k], prs[2 * k + 1]) for k in range(len(prs) // 2)]
     items = [x for x in items if isinstance(x, Version) or valid_items([x])]
-    isset = kind == "S"
-    if obj.prereleases is not fresh.prereleases: return "prereleases property depends on history"
-    if override is not None and obj.prereleases is not override: return "prereleases property ignores the override"
+    isset = kind != "X"
+    if nb(obj.prereleases) is not nb(fresh.prereleases): return "prereleases property depends on history"
+    if override is not None and nb(obj.prereleases) is not override: return "prereleases property ignores the override"
     if isset and override is None:
         exp = None if len(obj) == 0 else any(s.prereleases for s in obj)
-        if obj.prereleases is not exp: return "SpecifierSet.prereleases is not any(member.prereleases)"
+        if nb(obj.prereleases) is not exp: return "SpecifierSet.prereleases is not any(member.prereleases)"
+        if kind == "L" and exp is not None:
+            # the layers: some member (first supplied of its == class) has its own override True, or has none and names a pre-release
+            first = {}
+            for mo, t in spec: first.setdefault(Specifier(t), (nb(TRI[mo]), t))
+            lay = any(mo if mo is not None else bool(Specifier(t).prereleases) for mo, t in first.values())
+            if exp is not lay: return "prereleases of an object-built set is not the disjunction over its members' overrides / own defaults"
     V = lambda x: x if isinstance(x, Version) else Version(x)
+    answers = {}
     for arg in (None, True, False):
-        eff = arg if arg is not None else obj.prereleases
-        for x in items:
+        eff = arg if arg is not None else nb(obj.prereleases)
+        for j, x in enumerate(items):
             v = V(x)
             r = obj.contains(x, prereleases=arg)
+            answers[(arg, j)] = (bool(eff), r)
             if r is not fresh.contains(x, prereleases=arg): return "contains depends on history: %r %r" % (text, str(v))
             if arg is None and r is not (x in obj): return "`in` differs from contains()"
             if v.is_prerelease and not eff and r: return "pre-release %s matched although pre-releases are not enabled (arg=%r)" % (v, arg)
@@ -232,6 +321,7 @@ def law_c06(args):
                 if r is not obj.contains(x, prereleases=True) or r is not obj.contains(x, prereleases=False):
                     return "final release %s affected by the pre-release setting" % v
             if obj.contains(x, prereleases=False) and not obj.contains(x, prereleases=True): return "enabling pre-releases removed a match: %s" % v
+            if r and not obj.contains(x, prereleases=True): return "a match under arg=%r is lost with prereleases=True: %s" % (arg, v)
             if isset:
                 ri = obj.contains(x, prereleases=arg, installed=True)
                 if v.is_prerelease and eff:
@@ -242,6 +332,8 @@ def law_c06(args):
         if arg is None and [id(q) for q in res] != [id(q) for q in obj.filter(items)]: return "filter() differs from filter(prereleases=None)"
         pos = positions(items, res)
         if pos is None: return "filter result is not a subsequence of the very input objects"
+        if [id(q) for q in obj.filter(obj.filter(iter(items), prereleases=arg), prereleases=arg)] != [id(q) for q in res]: return "filter is not idempotent (filter of a filter)"
+        if not set(pos) <= set(positions(items, list(obj.filter(items, prereleases=True)))): return "filter(prereleases=%r) returns an item that filter(prereleases=True) drops" % (arg,)
         fallback = arg is None and override is None and ((not isset and not obj.prereleases) or (isset and len(obj) == 0))
         acc = lambda x, e: obj.contains(x, prereleases=bool(e)) if not (isset and len(obj) == 0) else (not (V(x).is_prerelease and not e))
         if fallback:
@@ -250,6 +342,10 @@ def law_c06(args):
         else:
             exp = [k for k, x in enumerate(items) if acc(x, eff)]
         if pos != exp: return "filter(prereleases=%r) returns positions %r, expected %r (%r, override %r)" % (arg, pos, exp, text, override)
+    # the answer depends on (override, argument) only through the effective setting
+    for (arg, j), (eff, r) in answers.items():
+        for (arg2, j2), (eff2, r2) in answers.items():
+            if j == j2 and eff == eff2 and r is not r2: return "contains differs under the same effective setting (%r vs %r)" % (arg, arg2)
     return "ok"
 
 
@@ -269,6 +365,7 @@ def law_reparse(args):
 
 def observe(cmd, args):
     if cmd == "s.run": return run_prog(args)
+    if cmd == "s.world": return run_world(args)
     if cmd == "law.s.c05": return law_c05(args)
     if cmd == "law.s.c06": return law_c06(args)
     if cmd == "law.s.reparse": return law_reparse(args)
